@@ -4,6 +4,7 @@
 -/
 import JrpcVerif.Driver.Codec
 import JrpcVerif.Model.ServerMsg
+import JrpcVerif.Model.ReadBodyBytes
 namespace Jrpc.Driver
 open Jrpc Jrpc.Srv
 
@@ -39,6 +40,9 @@ def clOf (s : String) : Option (Option Nat) :=
 
 def sortStrings (l : List String) : List String := (l.toArray.qsort (fun a b => a < b)).toList
 
+def unhexFrame (s : String) : Option Bytes :=
+  if s == "-" then some [] else unhexBytes s.toList
+
 def serverVerb (st : ServerSt) (ws : List String) : Option (ServerSt × String) :=
   match ws with
   | ["case", _, "srv", mr, mp, b] =>
@@ -71,10 +75,12 @@ def serverVerb (st : ServerSt) (ws : List String) : Option (ServerSt × String) 
         let invS := if invs.isEmpty then "-" else String.intercalate "," invs
         (st, s!"b:{frames.length}:{String.intercalate ":" frames} | {invS}"))
   | "http" :: m :: ct :: cl :: chunks =>
-    some (match ctOf ct, clOf cl, chunks.mapM unhexText with
+    -- byte level: frame boundaries may fall inside a multi-byte character
+    some (match ctOf ct, clOf cl, chunks.mapM unhexFrame with
       | some c, some l, some cs =>
-        let ho := httpCall st.cfg (lit m) c l cs
-        (st, s!"{httpRepr ho} | {invRepr ho.invoked}")
+        (match httpCallB st.cfg (lit m) c l cs with
+         | some ho => (st, s!"{httpRepr ho} | {invRepr ho.invoked}")
+         | none => (st, "non-utf8-body"))
       | _, _, _ => (st, "bad-op"))
   | _ => none
 
